@@ -594,6 +594,10 @@ val drop_while : ('a1 -> bool) -> 'a1 list -> 'a1 list
 
 val trim_ascii_end : bytes -> bytes
 
+val drop_blank_rev : bytes -> bytes
+
+val trim_blank_end : bytes -> bytes
+
 val strip_prefix : bytes -> bytes -> bytes option
 
 val utf8_len : byte -> nat
